@@ -12,7 +12,7 @@ if "--jobs" in args:
     i = args.index("--jobs"); jobs = int(args[i + 1]); del args[i:i + 2]
 if "--collect" in args:
     i = args.index("--collect"); base = args[i + 1]; del args[i:i + 2]
-    for d in sorted(glob.glob(os.path.join(base, "R*", "OUT", "*"))):
+    for d in sorted(glob.glob(os.path.join(base, "*", "OUT", "*"))):
         if os.path.isfile(os.path.join(d, "patch.diff")):
             dst = os.path.join(RD, os.path.basename(d))
             if not os.path.isdir(dst):
